@@ -211,7 +211,7 @@ pub fn run(ctx: &Ctx) -> Report {
     lattice.dedup();
     let mut acc = Acc::default();
     for v in &lattice {
-        check_value(*v, &mut acc);
+        guarded(&mut acc, &format!("value {v}"), |acc| check_value(*v, acc));
     }
     // out-of-range values: documented panic
     for v in [1i64 << 55, -(1i64 << 55) - 1, i64::MAX, i64::MIN] {
